@@ -1,6 +1,7 @@
 import Coraza.Model.TfChain
 import Coraza.Model.Transformations
 import Coraza.Model.UrlDecodeUni
+import Coraza.Model.Transformations2
 /-! Driver engine `tf`: `tf <name> <in> => <out> <changed> <err>` -/
 namespace Driver.Tf
 open Coraza Coraza.Tf
@@ -13,6 +14,11 @@ def run (name : String) (x : Bytes) : Option Res :=
   | "urldecode" => some (urlDecode x)
   | "urldecodeuni" => some (urlDecodeUni x)
   | "urlencode" => some (urlEncode x)
+  | "jsdecode" => some (jsDecode x)
+  | "cmdline" => some (cmdLine x)
+  | "removecommentschar" => some (removeCommentsChar x)
+  | "compresswhitespace" => if allAscii x then some (compressWhitespace x) else Option.none
+  | "removewhitespace" => if allAscii x then some (removeWhitespace x) else Option.none
   | "hexencode" => some (hexEncode x)
   | "hexdecode" => some (hexDecode x)
   | "removenulls" => some (removeNulls x)
